@@ -73,3 +73,131 @@ def _mk_cast_contract(k, s, t, m):
 
 for _k, (_s, _t, _m) in enumerate(CASES):
     _mk_cast_contract(_k, _s, _t, _m)
+
+
+# ----------------------------------------------------------------------------- whole converters (single-chart sources)
+
+from pyvc.dsl import MapT  # noqa: E402
+from pyvc.ghost import eqr, implies  # noqa: E402
+
+OSU = "reamber.osu.OsuMap:OsuMap"
+QUA = "reamber.quaver.QuaMap:QuaMap"
+BMS = "reamber.bms.BMSMap:BMSMap"
+
+_META = dict(title="T i:tle", artist="Ar;tist", creator="Cre ator", version="Ver sion")
+
+
+def _src_shapes(cls, with_svs):
+    col = dict(column=Int(0, 6))
+    ov = dict(hits=col, holds=col)
+    a = dict(hits=2, holds=1, bpms=1)
+    b = dict(hits=1, holds=2, bpms=2)
+    if with_svs:
+        a["svs"], b["svs"] = 2, 0
+    fields = {}
+    if cls == OSU:
+        fields = dict(title="T i:tle", artist="Ar;tist", creator="Cre ator", version="Ver sion")
+    elif cls == QUA:
+        fields = dict(title="T i:tle", artist="Ar;tist", creator="Cre ator", difficulty_name="Ver sion")
+    elif cls == BMS:
+        fields = dict(title=b"T i:tle", artist=b"Ar;tist", version=b"Ver sion")
+    return Choice([MapT(cls, a, fields=fields, overrides=ov), MapT(cls, b, fields=fields, overrides=ov)])
+
+
+def _target_charts(res):
+    """The chart objects of a converter result (a chart, a mapset or a list of either)."""
+    out = []
+    for x in (res if isinstance(res, list) else [res]):
+        if hasattr(x, "maps"):
+            out.extend(x.maps)
+        else:
+            out.append(x)
+    return out
+
+
+def _same_notes(tgt, src, shift):
+    return (
+        len(rows(tgt.hits)) == len(rows(src.hits)) and len(rows(tgt.holds)) == len(rows(src.holds)) and len(rows(tgt.bpms)) == len(rows(src.bpms))
+        and all(a["offset"] == b["offset"] and a["column"] == b["column"] + shift for a, b in zip(rows(tgt.hits), rows(src.hits)))
+        and all(a["offset"] == b["offset"] and a["column"] == b["column"] + shift and a["length"] == b["length"] for a, b in zip(rows(tgt.holds), rows(src.holds)))
+        and all(a["offset"] == b["offset"] and a["bpm"] == b["bpm"] for a, b in zip(rows(tgt.bpms), rows(src.bpms)))
+    )
+
+
+def _only_declared_no_nan(chart):
+    return all(sorted(columns(L)) == sorted(declared(type(L))) and no_nan(L) for L in chart.objs.values())
+
+
+def _src_untouched(src, old_src):
+    return all(unchanged(a, b) for a, b in zip(src.objs.values(), old_src.objs.values()))
+
+
+def _mk_converter_lemma(conv_path, src_cls, tgt_cls_path, call, with_svs=False, shift=False, meta=None):
+    conv_name = conv_path.split(":")[1]
+
+    class _L:
+        __doc__ = f"{conv_name}.convert on the REAL source: one target chart whose hits, holds and tempo points are the source's (positionally, whatever the row labels), only declared fields, nothing missing, source untouched."
+        assumes = SHAPE_NOTE + ["metadata strings are fixed concrete texts in the symbolic run (unidecode / codecs are library calls); random texts in the native run"]
+
+        def body(src, move):
+            conv = resolve(conv_path)
+            return call(conv, src, move)
+
+        def ensures_one_target_chart_of_the_target_game(src, move, result, old):
+            t = _target_charts(result)
+            return len(t) == 1 and type(t[0]) is resolve(tgt_cls_path)
+
+        def ensures_same_hits_holds_tempo_points(src, move, result, old):
+            return _same_notes(_target_charts(result)[0], old.src, move if shift else 0)
+
+        def ensures_only_target_fields_nothing_missing(src, move, result, old):
+            return _only_declared_no_nan(_target_charts(result)[0])
+
+        def ensures_source_untouched(src, move, result, old):
+            return _src_untouched(src, old.src)
+
+        def witnesses(rng):
+            from contracts.C12_stack import _rand_map
+
+            for _ in range(40):
+                m = _rand_map(rng, src_cls)
+                if len(m.hits) + len(m.holds) == 0:
+                    continue
+                for k in ("title", "artist", "creator", "version", "difficulty_name"):
+                    if hasattr(m, k):
+                        v = rng.choice(["a", "T i:tle", "Ar;tist #1", "x y z"])
+                        setattr(m, k, v.encode() if isinstance(getattr(m, k), bytes) else v)
+                yield dict(src=m, move=rng.randrange(0, 3) if shift else 0)
+
+    if with_svs:
+        def ensures_svs_carried(src, move, result, old):
+            t = _target_charts(result)[0]
+            return len(rows(t.svs)) == len(rows(old.src.svs)) and all(a["offset"] == b["offset"] and a["multiplier"] == b["multiplier"] for a, b in zip(rows(t.svs), rows(old.src.svs)))
+
+        _L.ensures_svs_carried = ensures_svs_carried
+    if meta:
+        def ensures_metadata_from_source(src, move, result, old):
+            return meta(result, old.src)
+
+        _L.ensures_metadata_from_source = ensures_metadata_from_source
+    _L.__name__ = _L.__qualname__ = f"convert_{conv_name}"
+    return lemma("C08", args=dict(src=_src_shapes(src_cls, with_svs or src_cls in (OSU, QUA)), move=Int(0, 3) if shift else Const(0)))(_L)
+
+
+_CONV = "reamber.algorithms.convert."
+SMMAP = "reamber.sm.SMMap:SMMap"
+
+_mk_converter_lemma(_CONV + "OsuToQua:OsuToQua", OSU, QUA, lambda c, s, mv: c.convert(s, False), with_svs=True,
+                    meta=lambda r, s: r.title == s.title and r.artist == s.artist and r.creator == s.creator and r.difficulty_name == s.version)
+_mk_converter_lemma(_CONV + "QuaToOsu:QuaToOsu", QUA, OSU, lambda c, s, mv: c.convert(s), with_svs=True,
+                    meta=lambda r, s: r.title == s.title and r.artist == s.artist and r.creator == s.creator and r.version == s.difficulty_name)
+_mk_converter_lemma(_CONV + "OsuToBMS:OsuToBMS", OSU, BMS, lambda c, s, mv: c.convert(s, mv), shift=True,
+                    meta=lambda r, s: r.title == s.title.encode("shift_jis") and r.artist == s.artist.encode("shift_jis") and r.version == s.version.encode("shift_jis"))
+_mk_converter_lemma(_CONV + "QuaToBMS:QuaToBMS", QUA, BMS, lambda c, s, mv: c.convert(s, mv), shift=True,
+                    meta=lambda r, s: r.title == s.title.encode("shift_jis") and r.artist == s.artist.encode("shift_jis") and r.version == s.difficulty_name.encode("shift_jis"))
+_mk_converter_lemma(_CONV + "OsuToSM:OsuToSM", OSU, SMMAP, lambda c, s, mv: c.convert(s, False),
+                    meta=lambda r, s: r.title == s.title and r.artist == s.artist and r.credit == s.creator)
+_mk_converter_lemma(_CONV + "QuaToSM:QuaToSM", QUA, SMMAP, lambda c, s, mv: c.convert(s),
+                    meta=lambda r, s: r.title == s.title and r.artist == s.artist and r.credit == s.creator)
+_mk_converter_lemma(_CONV + "BMSToQua:BMSToQua", BMS, QUA, lambda c, s, mv: c.convert(s, False))
+_mk_converter_lemma(_CONV + "BMSToSM:BMSToSM", BMS, SMMAP, lambda c, s, mv: c.convert(s))
